@@ -23,7 +23,7 @@ REQUIRED = ['calls_checked', 'tmin_slots_checked', 'full_layout_calls', 'conserv
 
 
 def gen_cases(tier, seed):
-    per = {'quick': 60, 'thorough': 3000}[tier]
+    per = {'quick': 120, 'thorough': 3000}[tier]
     out = []
     k = 0
     for name in odereg.ALL:
